@@ -138,7 +138,7 @@ Proof.
       * cbn [forallb]. change (hexgroupb []) with false. cbn [andb]. split; [discriminate|].
         intros (Y & HY & -> & H). destruct Y as [|y Y]; [discriminate|].
         cbn in H. injection H as <- _. apply Forall_cons in HY as [[Hy _] _]. cbn in Hy. lia.
-    + cbv beta iota. destruct (forallb hexgroupb ((c :: x) :: X)) eqn:E.
+    + destruct (forallb _ _) eqn:E.
       * rewrite (forallb_Forall _ hexgroup) in E by apply hexgroupb_spec. split.
         -- intros [= <-]. exists ((c :: x) :: X). auto.
         -- intros (Y & HY & -> & H). destruct Y as [|y Y]; [discriminate|].
@@ -169,6 +169,14 @@ Proof.
     rewrite HG, H8 in E. discriminate.
 Qed.
 
+Lemma take_drop_nth {A} (l : list A) : forall k x,
+  nth_error l k = Some x -> l = firstn k l ++ x :: skipn (S k) l.
+Proof.
+  induction l as [|a l IH]; intros [|k] x H; try discriminate.
+  - injection H as ->. reflexivity.
+  - cbn [nth_error] in H. cbn [firstn skipn app]. f_equal. apply IH, H.
+Qed.
+
 Lemma form2_spec fs k g :
   form2_6 fs k = Some g <->
   exists L R, Forall hexgroup L /\ Forall hexgroup R /\ (length L + length R <= 7)%nat /\
@@ -183,7 +191,7 @@ Proof.
     rewrite !map_length.
     destruct (length L + length R <=? 7)%nat eqn:E7; [|discriminate]. apply Nat.leb_le in E7.
     intros [= <-]. exists L, R. repeat split; try assumption.
-    + rewrite <- HL, <- HR. rewrite <- (take_drop_middle fs k []) at 1 by assumption. reflexivity.
+    + rewrite <- HL, <- HR. apply take_drop_nth, En.
     + rewrite <- HL. rewrite firstn_length_le; [reflexivity|].
       apply Nat.lt_le_incl, nth_error_Some. congruence.
   - intros (L & R & GL & GR & H7 & -> & -> & ->).
